@@ -348,7 +348,34 @@ EXPR_CTX = [
     ('method.args', 'xs.count({H})', False),
 ]
 # statement contexts, {S} = statement hole (a block); loop = needs no enclosing loop itself
+# local classes (a class defined inside the converted function): class body statements, bases, methods, and
+# defs / lambdas / loops / branches nested in methods
+EXPR_STMT_CTX += [
+    ('ClassDef.body', 'class K:\n    v = {H}', False),
+    ('ClassDef.body.second', 'class K:\n    u = 1\n    v = ({H}, 2)', False),
+    ('ClassDef.bases', 'class K({H}):\n    v = 1', False),
+    ('ClassDef.keywords', 'class K(E, metaclass={H}):\n    v = 1', False),
+    ('ClassDef.decorator_list', '@{H}\nclass K:\n    v = 1', False),
+    ('ClassDef.method', 'class K:\n    def m(self, p):\n        y = {H}\n        return y', False),
+    ('ClassDef.method.return', 'class K:\n    v = 1\n    def m(self, p):\n        return {H}', False),
+    ('ClassDef.method.defaults', 'class K:\n    def m(self, p={H}):\n        return p', False),
+    ('ClassDef.method.decorator', 'class K:\n    @{H}\n    def m(self):\n        return 1', False),
+    ('ClassDef.method.if', 'class K:\n    def m(self, p):\n        if p:\n            y = {H}\n        return 0', False),
+    ('ClassDef.method.if.test', 'class K:\n    def m(self, p):\n        if {H}:\n            p = 1\n        return p', False),
+    ('ClassDef.method.for', 'class K:\n    def m(self, p):\n        for q in xs:\n            p = {H}\n        return p', False),
+    ('ClassDef.method.while.test', 'class K:\n    def m(self, p):\n        while {H}:\n            p = 0\n        return p', False),
+    ('ClassDef.method.nested def', 'class K:\n    def m(self, p):\n        def inner(r):\n            return {H}\n        return inner(p)', False),
+    ('ClassDef.method.lambda', 'class K:\n    def m(self, p):\n        return (lambda y: {H})', False),
+    ('ClassDef.method.comprehension', 'class K:\n    def m(self, p):\n        return [{H} for q in xs]', False),
+    ('ClassDef.body.lambda', 'class K:\n    v = (lambda y: {H})', False),
+    ('ClassDef.nested class', 'class K:\n    class L:\n        def m(self):\n            return {H}', False),
+    ('ClassDef.after', 'class K:\n    v = 1\nx = {H}', False),
+]
+
 STMT_CTX = [
+    ('ClassDef.method.body', 'class K:\n    def m(self, p):\n{SS}\n        return p'),
+    ('ClassDef.method.if.body', 'class K:\n    def m(self, p):\n        if p:\n{SSS}\n        return p'),
+    ('ClassDef.method.nested def.body', 'class K:\n    def m(self, p):\n        def inner(r):\n{SSS}\n            return r\n        return inner(p)'),
     ('FunctionDef.body', '{S}'), ('If.body', 'if a:\n{S}'), ('If.orelse', 'if a:\n    x = 1\nelse:\n{S}'),
     ('If.elif.body', 'if a:\n    x = 1\nelif b:\n{S}'),
     ('While.body', 'while a:\n{S}\n    a = 0'), ('For.body', 'for q in xs:\n{S}'),
@@ -381,7 +408,9 @@ def indent(s, n=4):
 
 
 def fill_stmt(ctx, block):
-    return ctx.replace('{S}', indent(block)) if ctx != '{S}' else block
+    if ctx == '{S}':
+        return block
+    return ctx.replace('{SSS}', indent(block, 12)).replace('{SS}', indent(block, 8)).replace('{S}', indent(block))
 
 
 def catalogue(seed, tier):
@@ -428,7 +457,9 @@ def catalogue(seed, tier):
     for (sn, sc), (en, ec, ex0), (c1n, c1, ex1), (c2n, c2, ex2) in itertools.product(
             STMT_CTX, [c for c in EXPR_STMT_CTX if c[0] in ('Assign.value', 'If.test', 'Return.value', 'For.iter',
                                                              'While.test', 'arguments.defaults', 'Expr.value',
-                                                             'FunctionDef.decorator_list')],
+                                                             'FunctionDef.decorator_list', 'ClassDef.body',
+                                                             'ClassDef.method', 'ClassDef.method.nested def',
+                                                             'ClassDef.method.lambda', 'ClassDef.method.for')],
             EXPR_CTX, EXPR_CTX):
         combos.append((sn, sc, en, ec, ex0, c1n, c1, ex1, c2n, c2, ex2))
     rnd.shuffle(combos)
@@ -503,7 +534,7 @@ class DynGen(object):
 
     def stmt(self, d, in_loop, in_def):
         r = self.rnd
-        c = r.randrange(14 if d > 0 else 2)
+        c = r.randrange(16 if d > 0 else 2)
         if c <= 1:
             return 'acc = acc + int(bool(%s))' % self.expr(2)
         if c == 2:
@@ -529,6 +560,13 @@ class DynGen(object):
             fn = 'h%d' % self.k
             return 'def %s(p, acc=acc, dflt=%s):\n%s\n    return acc\nacc = %s(1)' % (
                 fn, self.expr(1), indent(self.block(d - 1, False, True)), fn)
+        if c in (14, 15):
+            # a local class: class-body statement, a method with a default value, nested material in the method
+            self.k += 1
+            cn = 'K%d' % self.k
+            return ('class %s:\n    v = %s\n    def m(self, p, acc=acc, dflt=%s):\n%s\n        return acc\n'
+                    'acc = %s().m(1) + int(bool(%s.v))') % (
+                cn, self.expr(2), self.expr(1), indent(self.block(d - 1, False, True), 8), cn, cn)
         if c == 9 and in_loop:
             return 'if %s:\n    break' % self.t('if-test', self.atom())
         if c == 10 and in_loop:
@@ -697,7 +735,8 @@ def _check(run, tmp):
     quick = run.tier == 'quick'
     run.rule = ('catalogue: every overloadable construct (call, method call, print, debugger entry, conditional '
                 'expression, and, or, not; if, while, for, break, continue, return) planted in every syntactic '
-                'position (30 statement-level expression positions, 41 expression positions, 13 block positions; '
+                'position (49 statement-level expression positions incl. 19 inside local classes, 41 expression positions, '
+                '16 block positions incl. methods of local classes; '
                 'exhaustive at depth 1-2, seeded sample of deeper nestings) x option sets {(), BUILTIN_FUNCTIONS}; '
                 'plus seeded random executable programs for the dynamic oracle; distinct non-trivial = distinct '
                 '(pass, parent kind, field, construct) observations of a real pass + distinct programs whose '
